@@ -116,22 +116,69 @@ def register(w):
                 f"assert forall[int](lambda i: implies(0 <= i and i < len(old({ACC})), {ACC}[i] == old({ACC})[i]))")
 
 
-    @w.contract(SI + "_enter_states", also=[BI + "_enter_states"], props=["C01", "C03"])
-    def _(c):
-        c.trusted = ("contract E (entry of a forest-closed list, default descent) is NOT proved: assumed here in the one shape start() uses "
-                     "(entering [root] into an empty configuration yields a legal configuration) and checked at run time by bounded.c01/c03; "
-                     "like every action-running routine it reaches the queue only through send()")
-        c.no_runtime = True
+    ENTER_MODS = [A, "self.context", "self.status", "self.output", "self.error", "self._action_depth",
+                  "self._after_events", "self._after_threads", "self._pending_send_cancels", "self._scheduled_sends", "self._actors", Q, ACC, "Flag.is_set"]
+    APP_E = f"appended_only(old({Q}), old({ACC}), {Q}, {ACC})"
+    LISTED_NN = "forall[int](lambda i: implies(0 <= i and i < len(states_to_enter), states_to_enter[i] != None))"
+    E1 = f"forall[Node](lambda n: implies(n in old({A}), n in {A}))"
+    E2 = f"forall[int](lambda i: implies(0 <= i and i < len(states_to_enter), states_to_enter[i] in {A}))"
+    E3 = f"forall[Node](lambda n: implies(n in {A} and not (n in old({A})), exists[int](lambda i: 0 <= i and i < len(states_to_enter) and anc(n, states_to_enter[i]))))"
+    ANN_E = f"implies(forall[Node](lambda n: implies(n in old({A}), n != None)), forall[Node](lambda n: implies(n in {A}, n != None)))"
+
+    def enter_clauses(c):
         c.param("states_to_enter", ListSort(Node)).param("event", Ev)
         c.defaults = {"event": "None"}
-        c.mod(*STATE, Q, ACC, "Flag.is_set")
-        c.ens(f"implies(len(states_to_enter) == 1 and states_to_enter[0] == root and forall[Node](lambda n: not (n in old({A}))), legal({A}))")
-        c.ens(f"appended_only(old({Q}), old({ACC}), {Q}, {ACC})", label="ghost:queue-append-only")
+        c.mod(*ENTER_MODS)                      # NOT self._history: entering never records history
+        c.req(LISTED_NN)
+        c.req("ghost:self._is_processing")      # entry actions run while an event is being processed
+        # contract E proper (the configuration is legal again) is NOT proved; it is assumed in the one shape start() uses and
+        # evaluated at run time by bounded.c01/c03.  What IS proved for the sync body: E1-E3 below, the queue / status / wf clauses.
+        c.ens(f"implies(len(states_to_enter) == 1 and states_to_enter[0] == root and forall[Node](lambda n: not (n in old({A}))), legal({A}))",
+              label="assume:entering-the-root-into-an-empty-configuration-yields-a-legal-one")
+        c.ens(E1, label="entering-exits-nothing")
+        c.ens(E2, label="every-listed-state-is-entered")
+        c.ens(E3, label="only-listed-states-and-their-descendants-are-entered")
+        c.ens(APP_E, label="ghost:queue-append-only")
+        c.ens("status_reach(old(self.status), self.status)", label="status-moves-along-allowed-edges")
+        c.ens(ANN_E, label="configuration-holds-states")
+        c.may_raise("Exception", ensures=[("entering-exits-nothing", E1), ("only-listed-states-and-their-descendants-are-entered", E3),
+                                          ("queue-append-only", "ghost:" + APP_E), ("status-moves-along-allowed-edges", "status_reach(old(self.status), self.status)"),
+                                          ("configuration-holds-states", ANN_E)])
+
+    @w.contract(SI + "_enter_states", props=["C01", "C03"])
+    def _(c):
+        c.no_runtime = True
+        enter_clauses(c)
+        c.user_effect = "action"
+        # termination of the default descent: every recursive call enters children of a listed state
+        c.ghost_param("hb", INT, default="height(root) + 1")
+        c.req("ghost:hb >= 0 and forall[int](lambda i: implies(0 <= i and i < len(states_to_enter), height(states_to_enter[i]) < hb))")
+        c.decreases = "hb"
+        c.before("self._enter_states([initial_child], event)", "ghostarg_hb = height(state)")
+        c.before("self._enter_states(regions, event)", "ghostarg_hb = height(state)")
+        c.loop(0, inv=[
+            f"forall[Node](lambda n: implies(n in old({A}), n in {A}))",
+            f"forall[int](lambda j: implies(0 <= j and j < _i, states_to_enter[j] in {A}))",
+            E3, APP_E, "status_reach(old(self.status), self.status)", ANN_E,
+        ])
+
+    @w.contract(BI + "_enter_states", props=["C01", "C03"])
+    def _(c):
+        c.trusted = ("assumed for the asyncio engine (same clauses as the sync body, which is proved for all but contract E's legality clause); "
+                     "bounded: bounded.c01/c03 on both engines")
+        c.no_runtime = True
+        enter_clauses(c)
+
+    @w.contract(SI + "_check_and_fire_on_done", also=[BI + "_check_and_fire_on_done"], props=["C10"])
+    def _(c):
+        c.trusted = ("assumed: walks up from a final state, queues done.state.<id> for the nearest done ancestor through send() (append-only while "
+                     "processing) or completes the machine through _complete (status/output); never touches the configuration; bounded: bounded.c10")
+        c.no_runtime = True
+        c.param("final_state", Node)
+        c.mod("self.status", "self.output", Q, ACC)
+        c.req("ghost:self._is_processing")
+        c.ens(APP_E, label="ghost:queue-append-only")
         c.ens("status_reach(old(self.status), self.status)")
-        HWF = "forall[str, int](lambda k, i: implies(k in self._history and 0 <= i and i < len(self._history[k]), self._history[k][i] != None))"
-        c.ens(f"implies(forall[int](lambda i: implies(0 <= i and i < len(states_to_enter), states_to_enter[i] != None)) and forall[Node](lambda n: implies(n in old({A}), n != None)), forall[Node](lambda n: implies(n in {A}, n != None)))")
-        c.ens(f"implies(old({HWF}), {HWF})")
-        c.may_raise("Exception", ensures=[f"ghost:appended_only(old({Q}), old({ACC}), {Q}, {ACC})", "status_reach(old(self.status), self.status)", f"implies(old({HWF}), {HWF})"])
 
     @w.contract(SI + "start", props=["C14", "C04", "C01"])
     def _(c):
